@@ -96,6 +96,30 @@ theorem limit_length_le {α : Type} (b e : Nat) (hbe : b < e) (xs : List α) :
   simp only [h1, h2, if_true, List.length_drop, List.length_take]
   omega
 
+/-- `LIMIT b e` with `0 ≤ b`, `0 < e`: the window `[b, e)` of the unlimited results -/
+theorem limit_window {α : Type} (b e : Nat) (he : 0 < e) (xs : List α) :
+    limit (b : Int) (e : Int) xs = (xs.take e).drop b := by
+  rw [limit_is_slice]
+  unfold slice
+  have h1 : ((e : Int) > 0) := by omega
+  have h2 : ((b : Int) ≥ 0) := by omega
+  simp only [h1, h2, if_true]
+  by_cases hle : e ≤ xs.length
+  · have h3 : (min (e : Int) (xs.length : Int)).toNat = e := by omega
+    rw [h3]
+    by_cases hb : b ≤ xs.length
+    · have h4 : (min (b : Int) (xs.length : Int)).toNat = b := by omega
+      rw [h4]
+    · have h4 : (min (b : Int) (xs.length : Int)).toNat = xs.length := by omega
+      rw [h4, List.drop_eq_nil_of_le (by simp; omega), List.drop_eq_nil_of_le (by simp; omega)]
+  · have h3 : (min (e : Int) (xs.length : Int)).toNat = xs.length := by omega
+    rw [h3, List.take_length, List.take_of_length_le (by omega)]
+    by_cases hb : b ≤ xs.length
+    · have h4 : (min (b : Int) (xs.length : Int)).toNat = b := by omega
+      rw [h4]
+    · have h4 : (min (b : Int) (xs.length : Int)).toNat = xs.length := by omega
+      rw [h4, List.drop_eq_nil_of_le (by omega), List.drop_eq_nil_of_le (by omega)]
+
 /-- **C08 (union).** -/
 theorem union_is_union (h o : H) (hh : Truthful h) (ho : Truthful o) :
     Truthful (union h o) ∧ ∀ x, x ∈ (union h o).arr ↔ x ∈ h.arr ∨ x ∈ o.arr :=
